@@ -11,6 +11,12 @@ HARNESSES = [
     stubs=['raw()/wrap(): harness capture of the formatted pieces (exppp.c line wrapping is not the subject here)', 'operator tokens: one distinct character per operator', 'shadow express headers (Scope_.u as struct)', 'built-in pointer checks off (functional property)'],
     out_of_claim='unary/ternary operators mixed in, literals, QUERY, aggregates, function calls, re-parsing by the real parser, line wrapping') for op in OPS
 ] + [
+  H('expr_unary_%s' % u[3:].lower(), 'c', 'harness/C07/h_expr.c', tracked=['src/exppp/pretty_expr.c'], cflags=['-I/repo/src/exppp', '-I/repo/include/exppp', '-fno-builtin'], shadow_scope=True,
+    defs={'UNARY_O1': u, 'FIX_O1': 'OP_PLUS'}, unwind=70, object_bits=13, no_checks=True,
+    bounds='trees %s ( a o2 b ) and ( %s a ) o2 b over identifiers, o2 symbolic over all 22 binary operator codes' % (u, u),
+    stubs=['raw()/wrap(): harness capture of the formatted pieces', 'operator tokens: one distinct character per binary operator', 'shadow express headers (Scope_.u as struct)', 'built-in pointer checks off (functional property)'],
+    out_of_claim='ternary operators, literals, QUERY, aggregates, function calls, re-parsing by the real parser, line wrapping') for u in ('OP_NEGATE', 'OP_NOT')
+] + [
   H('where_labels_n%d' % n, 'c', 'harness/C07/h_where.c', tracked=['src/exppp/pretty_where.c', 'src/exppp/pretty_expr.c'], cflags=['-I/repo/src/exppp', '-I/repo/include/exppp', '-fno-builtin'], shadow_scope=True,
     models=['lib/cmodels/sprintf_only.c'], defs={'NR': n}, unwind=100, object_bits=13, no_checks=True,
     bounds='WHERE clause of %d rule(s); per rule: real label or the parser sentinel "<unnamed>" (symbolic)' % n,
@@ -19,7 +25,7 @@ HARNESSES = [
 ]
 JOBS = 6
 MANIFEST = {
-  'level_text': 'Bounded model checking of two pretty-printer kernels with the real pretty_expr.c / pretty_where.c: (1) for every pair of binary operators, the differently grouped trees (a o1 b) o2 c and a o1 (b o2 c) print differently unless o1 = o2 is associative, i.e. the printed expression denotes the tree it came from up to redundant parentheses; (2) a WHERE clause of 1-2 rules prints a label prefix exactly for labelled rules, never the internal placeholder of unlabelled ones, and every rule once, terminated. Kernel level only.',
+  'level_text': 'Bounded model checking of two pretty-printer kernels with the real pretty_expr.c / pretty_where.c: (1) for every pair of binary operators, the differently grouped trees (a o1 b) o2 c and a o1 (b o2 c) print differently unless o1 = o2 is associative, i.e. the printed expression denotes the tree it came from up to redundant parentheses, and the binary operand of a unary operator (-, NOT) is always parenthesised; (2) a WHERE clause of 1-2 rules prints a label prefix exactly for labelled rules, never the internal placeholder of unlabelled ones, and every rule once, terminated. Kernel level only.',
   'level_note': 'Trusted: CBMC, harness capture of raw()/wrap(), the shadow copies of include/express and include/exppp in which Scope_.u is a struct (CBMC simplifier bug workaround; native replay uses the real headers). Outside: line wrapping (wrap/breakLongStr in exppp.c, char[10000] buffers), declarations/scopes/alphabetisation, statements, aggregate initialisers with repetition, re-parsing by the real parser, idempotence of a second printing.',
   'technique': 'CBMC bounded model checking of goto-cc-compiled pretty_expr.c/pretty_where.c with symbolic operators and label states; native replay',
   'design_ref': 'DESIGN.md section 2, C07',
